@@ -511,11 +511,12 @@ impl Ex {
                 }
             }
             Ex::Op(op, args) => {
+                let target = if opaque { "n." } else { "%num." };
                 if args.len() == 1 {
-                    format!("{} n.{op}", args[0].qv(opaque))
+                    format!("{} {target}{op}", args[0].qv(opaque))
                 } else {
                     let fs: Vec<String> = args.iter().map(|a| a.qv(opaque)).collect();
-                    format!("[{}] n.{op}", fs.join(", "))
+                    format!("[{}] {target}{op}", fs.join(", "))
                 }
             }
         }
@@ -740,7 +741,7 @@ fn cv_answer(c: &Cv) -> String {
 // ---------------------------------------------------------------------------------------------
 // running the real module
 
-const PRELUDE: &str = "n = %num\no = #'%num.opt { $ }\n";
+const PRELUDE: &str = "n = %num\no = #'%num.opt { $ }\nnn = #'%num { $ }\n";
 
 /// One program evaluating all expressions; returns one answer per expression, or a whole-program
 /// outcome (`error:<Class>` / `panic:…` / `front:…`).
@@ -1021,6 +1022,9 @@ struct Case {
     stream: &'static str,
     /// host reference applies (canonical operands)
     oracle: bool,
+    /// the result is passed to `nn = #'%num { $ }`: the program compiles only if the call site's
+    /// result type was specialised to exclude nil
+    typed: bool,
 }
 
 fn bits_class(b: u64) -> &'static str {
@@ -1107,7 +1111,7 @@ fn main() {
                 let Some(args) = args else { continue };
                 let oracle = c["oracle"].as_bool().unwrap_or(true);
                 for opaque in [false, true] {
-                    cases.push(Case { ex: Ex::Op(op, args.iter().map(Ex::lit).collect()), opaque, stream: "corpus", oracle });
+                    cases.push(Case { ex: Ex::Op(op, args.iter().map(Ex::lit).collect()), opaque, stream: "corpus", oracle, typed: false });
                 }
             }
         }
@@ -1122,7 +1126,7 @@ fn main() {
         let y = if r.chance(1, 2) { gen_partner(&mut r, &x) } else { gen_num(&mut r, 4, surd_w) };
         let (x, y) = if r.chance(1, 2) { (x, y) } else { (y, x) };
         let op = if r.chance(3, 4) { *r.pick(BIN_OPS) } else { *r.pick(BIN_OPS_MORE) };
-        cases.push(Case { ex: Ex::op2(op, Ex::lit(&x), Ex::lit(&y)), opaque: r.chance(1, 3), stream: "binary", oracle: true });
+        cases.push(Case { ex: Ex::op2(op, Ex::lit(&x), Ex::lit(&y)), opaque: r.chance(1, 3), stream: "binary", oracle: true, typed: false });
     }
 
     // --- stream 2: unary operations, clamp, sqrt
@@ -1133,13 +1137,13 @@ fn main() {
         match r.below(10) {
             0 | 1 => {
                 let x = gen_sqrt_operand(&mut r);
-                cases.push(Case { ex: Ex::Op("sqrt", vec![Ex::lit(&x)]), opaque, stream: "sqrt", oracle: true });
+                cases.push(Case { ex: Ex::Op("sqrt", vec![Ex::lit(&x)]), opaque, stream: "sqrt", oracle: true, typed: false });
             }
             2 => {
                 let x = gen_num(&mut r, 4, 25);
                 let lo = gen_partner(&mut r, &x);
                 let hi = gen_partner(&mut r, &x);
-                cases.push(Case { ex: Ex::Op("clamp", vec![Ex::lit(&x), Ex::lit(&lo), Ex::lit(&hi)]), opaque, stream: "clamp", oracle: true });
+                cases.push(Case { ex: Ex::Op("clamp", vec![Ex::lit(&x), Ex::lit(&lo), Ex::lit(&hi)]), opaque, stream: "clamp", oracle: true, typed: false });
             }
             _ => {
                 let mut x = gen_num(&mut r, 0, 35);
@@ -1159,7 +1163,7 @@ fn main() {
                     };
                 }
                 let op = *r.pick(UN_OPS);
-                cases.push(Case { ex: Ex::Op(op, vec![Ex::lit(&x)]), opaque, stream: "unary", oracle: true });
+                cases.push(Case { ex: Ex::Op(op, vec![Ex::lit(&x)]), opaque, stream: "unary", oracle: true, typed: false });
             }
         }
     }
@@ -1176,7 +1180,23 @@ fn main() {
         } else {
             Ex::Op(*r.pick(&["neg", "abs", "to_int", "floor", "round", "sign", "numer", "denom", "ceil"]), vec![Ex::lit(&m)])
         };
-        cases.push(Case { ex, opaque: r.chance(1, 3), stream: "malformed", oracle: false });
+        cases.push(Case { ex, opaque: r.chance(1, 3), stream: "malformed", oracle: false, typed: false });
+    }
+
+    // --- stream 3b: call-site result specialisation. For int/rational operands the dispatch
+    //     tables of add/sub/mul/neg/abs/to_int/floor/ceil/numer/denom give a result type without
+    //     nil: feeding the result to a function that only accepts non-nil numbers must compile.
+    let n_typed = opts.tier.pick(240u64, 5000u64);
+    for i in 0..n_typed {
+        let mut r = Rng::for_case(opts.seed ^ 0xC20_0006, i);
+        let x = gen_num(&mut r, 0, 0);
+        let y = gen_num(&mut r, 0, 0);
+        let ex = if r.chance(1, 2) {
+            Ex::op2(*r.pick(&["add", "sub", "mul"]), Ex::lit(&x), Ex::lit(&y))
+        } else {
+            Ex::Op(*r.pick(&["neg", "abs", "to_int", "floor", "ceil", "numer", "denom"]), vec![Ex::lit(&x)])
+        };
+        cases.push(Case { ex, opaque: false, stream: "typed-nonnil", oracle: true, typed: true });
     }
 
     // --- stream 4: law instances on triples (nested expressions)
@@ -1252,7 +1272,7 @@ fn main() {
         let mut idx = vec![];
         for ex in exs {
             idx.push(cases.len());
-            cases.push(Case { ex, opaque, stream: "law", oracle: true });
+            cases.push(Case { ex, opaque, stream: "law", oracle: true, typed: false });
         }
         laws.push(Law { name, idx, operands: vec![x, y, z] });
     }
@@ -1293,7 +1313,8 @@ fn main() {
 
     // --- evaluate everything through the real module
     let t0 = std::time::Instant::now();
-    let exprs: Vec<String> = cases.iter().map(|c| c.ex.qv(c.opaque)).collect();
+    let exprs: Vec<String> =
+        cases.iter().map(|c| if c.typed { format!("{} nn", c.ex.qv(c.opaque)) } else { c.ex.qv(c.opaque) }).collect();
     let impl_out = run_all(&exprs, batch, &b, &mut ev);
     ev.set_extra("impl_eval_wall_s", json!(t0.elapsed().as_secs_f64()));
 
@@ -1302,7 +1323,7 @@ fn main() {
     let mut mixed_first = None;
     for (i, c) in cases.iter().enumerate() {
         let got = &impl_out[i];
-        let key = (c.ex.key(), c.opaque);
+        let key = (c.ex.key(), c.opaque, c.typed);
         let (op, lits): (&str, Vec<&Nm>) = match &c.ex {
             Ex::Op(op, args) => (op, args.iter().filter_map(|a| if let Ex::Lit(n) = a { Some(n) } else { None }).collect()),
             Ex::Lit(_) => ("lit", vec![]),
